@@ -11,7 +11,7 @@ import (
 // violation reporting, shrinking, fatal-process attribution and replay.
 type toy struct{}
 
-func (toy) ID() string { return "T00" }
+func (toy) ID() string           { return "T00" }
 func (toy) Runs(tier string) int { return 200 }
 func (toy) Describe() core.Description {
 	return core.Description{Level: "exploration", Rule: "toy"}
@@ -44,9 +44,11 @@ func (toy) Run(ctx *core.RunCtx) {
 // toyRace is the self-test of the scheduler + race oracle (race binary only).
 type toyRace struct{}
 
-func (toyRace) ID() string         { return "T01" }
-func (toyRace) Runs(string) int    { return 40 }
-func (toyRace) Describe() core.Description { return core.Description{Level: "exploration", Rule: "toy"} }
+func (toyRace) ID() string      { return "T01" }
+func (toyRace) Runs(string) int { return 40 }
+func (toyRace) Describe() core.Description {
+	return core.Description{Level: "exploration", Rule: "toy"}
+}
 
 func (toyRace) Run(ctx *core.RunCtx) {
 	shared := make([]uint64, 8)
